@@ -831,6 +831,44 @@ func (g *Gen) callAnchorsAfter(fr *Frame, st *State, name string, callee *ssa.Fu
 	}
 }
 
+// callAnchorsAfterInvoke: "set g = e after call Method" for interface method calls.
+func (g *Gen) callAnchorsAfterInvoke(fr *Frame, st *State, c *ssa.CallCommon, args []Val, ret Val) {
+	con := g.anchorContract(fr)
+	if con == nil || g.specMode {
+		return
+	}
+	name := c.Method.Name()
+	for _, s := range con.Sets {
+		if s.AfterCall != name {
+			continue
+		}
+		extra := map[string]CV{}
+		sig := c.Method.Type().(*types.Signature)
+		for i := 0; i < sig.Params().Len() && i < len(args); i++ {
+			if args[i].T == "" {
+				continue
+			}
+			cv := CV{T: args[i].T, Ty: sig.Params().At(i).Type()}
+			if n := sig.Params().At(i).Name(); n != "" && n != "_" {
+				extra[n] = cv
+			}
+			extra[fmt.Sprintf("arg%d", i)] = cv
+		}
+		rs := sig.Results()
+		if rs.Len() == 1 && ret.T != "" {
+			extra["result"] = CV{T: ret.T, Ty: rs.At(0).Type()}
+			extra["result0"] = extra["result"]
+		} else if rs.Len() > 1 && len(ret.Tuple) == rs.Len() {
+			for i := range ret.Tuple {
+				if ret.Tuple[i].T != "" {
+					extra[fmt.Sprintf("result%d", i)] = CV{T: ret.Tuple[i].T, Ty: rs.At(i).Type()}
+				}
+			}
+		}
+		g.ghostSet(fr, st, s, extra)
+	}
+}
+
 // bindClosureEnv: a closure verified on its own shares the environment record of its parent:
 // every parent variable captured by some closure becomes a symbolic cell; captured variables
 // holding sibling closures are resolved statically so that calls through them use the
